@@ -267,6 +267,19 @@ func bitOpArrays(s *slip.Scope, f slip.Object, args slip.List, depth int) (a1, a
 				FillPtr: -1,
 			}
 		}
+		// The constructors of a bit-vector allocate different byte counts
+		// for the same length and the callers go over the bytes of the
+		// first one, so give all three the same number of bytes.
+		all := []*slip.BitVector{t1, t2, r.(*slip.BitVector)}
+		size := 0
+		for _, bv := range all {
+			size = max(size, len(bv.Bytes))
+		}
+		for _, bv := range all {
+			if len(bv.Bytes) < size {
+				bv.Bytes = append(bv.Bytes, make([]byte, size-len(bv.Bytes))...)
+			}
+		}
 		a1 = t1
 		a2 = t2
 	default:
